@@ -42,7 +42,10 @@ Record sobj := mkSobj {
   so_hloc : nat;                           (* header object *)
   so_hdr : list Z;                         (* names in index order *)
   so_cols : list Z;                        (* wl.columns (the dictionary's header again) *)
-  so_rows : list (Z * nat * list Z)        (* id, row object, cells - in iteration order *)
+  so_rows : list (Z * nat * list Z);       (* id, row object, cells - in iteration order *)
+  so_strkeys : bool;                       (* dictionary: the rows sit under numeric string keys *)
+  so_stale : list (Z * nat)                (* wordlist: _meta entries under numeric string keys that are
+                                              row lists of another object: id, that row object *)
 }.
 
 Definition snapshot := list sobj.
@@ -62,7 +65,9 @@ Definition snap_of_state (s : state) : snapshot :=
   map (fun o => mkSobj (match o_kind o with KDict => true | KWl => false end)
                        (first_index (o_hdr o) all)
                        (hget h (o_hdr o)) (hget h (o_hdr o))
-                       (map (fun r => (fst r, first_index (snd r) all, hget h (snd r))) (o_rows o)))
+                       (map (fun r => (fst r, first_index (snd r) all, hget h (snd r))) (o_rows o))
+                       (o_strkeys o)
+                       (map (fun r => (fst r, first_index (snd r) all)) (o_stale o)))
       (st_objs s).
 
 (* content of an object: everything but the location numbers *)
@@ -77,7 +82,9 @@ Definition row_eqb (a b : Z * nat * list Z) : bool :=
   row_content_eqb a b && Nat.eqb (snd (fst a)) (snd (fst b)).
 
 Definition sobj_eqb (a b : sobj) : bool :=
-  sobj_content_eqb a b && Nat.eqb (so_hloc a) (so_hloc b) && list_eqb row_eqb (so_rows a) (so_rows b).
+  sobj_content_eqb a b && Nat.eqb (so_hloc a) (so_hloc b) && list_eqb row_eqb (so_rows a) (so_rows b)
+  && Bool.eqb (so_strkeys a) (so_strkeys b)
+  && list_eqb (pair_eqb Z.eqb Nat.eqb) (so_stale a) (so_stale b).
 
 Definition snapshot_eqb : snapshot -> snapshot -> bool := list_eqb sobj_eqb.
 
@@ -145,6 +152,8 @@ Definition mat_eqb (a b : mat) : bool := list_eqb qrow_eqb a b.
 
 Record pure_case := {
   pc_flat : bool;              (* the call is flat_cluster: compared with the model *)
+  pc_low : nat;                (* 1: cython/_cluster.flat_cluster with pc_meth, 2: with a method name it does
+                                  not know ('ward'): compared with low_flat; 0: neither *)
   pc_ward : bool;
   pc_meth : method;
   pc_thr : Q;
@@ -173,7 +182,21 @@ Definition pure_model_ok (c : pure_case) : bool :=
     let (r2, h2) := flat_cluster_h (pc_ward c) (pc_meth c) (pc_thr c) h1 m in
     clusters_eqb r1 (pc_out1 c) && clusters_eqb r2 (pc_out2 c)
     && mat_eqb (mview h1 m) (pc_after1 c) && mat_eqb (mview h2 m) (pc_after2 c)
-  else true.
+  else match pc_low c with
+  | 0 => true
+  | k =>
+    let f := mfun_run (MLowFlat (match k with 1 => LKnown (pc_meth c) | _ => LOther end) (pc_thr c)) in
+    let h := pc_before c in
+    let m := seq 0 (length h) in
+    let (r1, h1) := f h m in
+    let (r2, h2) := f h1 m in
+    match r1, r2 with
+    | RClusters c1, RClusters c2 =>
+        clusters_eqb c1 (pc_out1 c) && clusters_eqb c2 (pc_out2 c)
+        && mat_eqb (mview h1 m) (pc_after1 c) && mat_eqb (mview h2 m) (pc_after2 c)
+    | _, _ => false
+    end
+  end.
 
 Definition pure_case_code (c : pure_case) : nat :=
   bit 0 (pure_model_ok c) + bit 3 (pureb c) + bit 4 (sameb_res c).
